@@ -153,6 +153,17 @@ CHECKS = {
         note='Trusted: determinism of the generated program and its event order. Violation signatures carry the location kind (single / multi) and '
              'when the offending record was created, so that a defect of one timing class cannot hide one of another.',
         ref='DESIGN.md §4 C13'),
+    'C08': dict(
+        technique='runtime monitoring: crash / hang / out-of-bounds oracle (process survival, panic location, watchdog with reproduction, feature-gated bounds probes at the unchecked reads, canary query) over grammar-derived and mutated hostile inputs',
+        text='Four workloads: 30 000 console command lines and data query expressions derived from the grammar and mutated (digit runs of 1-40 '
+             'characters, huge hex, brackets nested up to 200 deep, unicode, NULs); ~1 300 live queries at a stop (out-of-range indices, inverted '
+             'and huge slices, keys of wrong shape or arity, zero-sized types, and type casts aiming every collection type at poison pages: all-ones, '
+             'self-referential, cyclic, huge lengths, pointer/len/cap triples, the last bytes before an unmapped page); the same through the console '
+             'of the real bs in a pseudo-terminal; malformed DAP envelopes followed by a canary. Every input must end in a result or an error with the '
+             'process alive, the bounds probes silent and the canary answering. Held after the nine fix commits.',
+        note='A crash is keyed by its panic location, a hang counts only if it reproduces on a fresh worker, other watchdog expiries are inconclusive. '
+             'Evidence reports probe evaluations (millions per run) to show that the unchecked reads are reached.',
+        ref='DESIGN.md §4 C08'),
     'C06': dict(
         technique='runtime monitoring: structural comparison of the debugger\'s Value trees with the debuggee\'s own canonical self-description (reference model = safe Rust in the program)',
         text='Generated programs hold ~40 variables each (locals, statics, thread-locals, arguments) from a recursive type grammar with boundary '
